@@ -809,6 +809,9 @@ class Evaluator:
                 if f.id in ('frozenset', 'bytes', 'sum', 'repr', 'iter', 'next', 'filter', 'hasattr', 'callable', 'getattr', 'hex', 'oct', 'bin', 'round', 'float', 'range', 'divmod', 'type', 'id'):
                     r = {'frozenset': frozenset, 'bytes': bytes, 'sum': sum, 'repr': repr, 'iter': iter, 'next': next, 'filter': filter, 'hasattr': hasattr, 'callable': callable, 'getattr': getattr, 'hex': hex, 'oct': oct, 'bin': bin, 'round': round, 'float': float, 'range': range, 'divmod': divmod, 'type': type, 'id': id}[f.id](*args, **kwargs)
                     return list(r) if f.id in ('filter', 'range') else r
+                if f.id == 'setattr' and len(args) == 3 and not kwargs and isinstance(args[0], Record) and isinstance(args[1], str):
+                    setattr(args[0], args[1], args[2])  # on a model object only
+                    return None
                 raise AnalysisError(f'call of unmodelled function {f.id}')
             if isinstance(f, ast.Attribute):
                 d = text(f)
